@@ -60,9 +60,11 @@ impl ZodBindingsGenerator {
             .collect();
 
         let enum_values = variants.join(", ");
+        // Like object schemas, enums need the inferred type alias: commands.ts and
+        // events.ts refer to `types.<Name>`, and plain mode declares `type <Name>` too
         format!(
-            "export const {}Schema = z.enum([{}]);\n\n",
-            name, enum_values
+            "export const {}Schema = z.enum([{}]);\n\nexport type {} = z.infer<typeof {}Schema>;\n\n",
+            name, enum_values, name, name
         )
     }
 
